@@ -74,7 +74,7 @@ class PureCheck:
             # family of inputs)
             step = self.warm_every if tier == "quick" else max(2, self.warm_every - 1)
             wr = common.rng(self.pid + ":warm")
-            inputs += [dict(inp, warm=wr.randrange(1, 1024)) for inp in inputs if wr.random() * step < 1]
+            inputs += [dict(inp, warm=wr.randrange(1, 4096)) for inp in inputs if wr.random() * step < 1]
         if common.LIGHT and len(inputs) > 2500:
             lr = common.rng(self.pid + ":light")
             inputs = lr.sample(inputs, 2500)
@@ -84,6 +84,9 @@ class PureCheck:
     def _execute(self, inp):
         import enc
         enc.WARM = inp.get("warm", 0) if isinstance(inp, dict) else 0
+        if enc.WARM & (1024 | 2048):
+            import zlib
+            enc.SEED = zlib.crc32(json.dumps(inp, sort_keys=True, default=str).encode())
         if enc.WARM & 64:
             import zlib
             import fmtlib
